@@ -391,7 +391,7 @@ def run(ctx):
             if st['w'].get(pf) is None:
                 fresh(pf)
             st['n'] += 1
-            r = execute(st['w'][pf], case, choices, 's%dn%d' % (shard, st['n']))
+            r = execute(st['w'][pf], case, choices, 's%02dn%06d' % (shard, st['n']))
             hp = st['w'][pf].sq.health_problems()
             if hp:
                 r['crash'] = hp
@@ -521,7 +521,7 @@ def replay(ctx, data):
     w = make_world(ctx, 0, data['case'].get('pf', 3))
     w.start()
     try:
-        r = execute(w, data['case'], data['choices'], 'r0n1')
+        r = execute(w, data['case'], data['choices'], 's00n000001')
         print('\n'.join(r['transcript']))
         hp = w.sq.health_problems()
         if hp:
